@@ -103,9 +103,21 @@ LINE = re.compile(r"^(?P<path>.+?):(?P<line>\d+):(?P<col>\d+): (?P<len>\d+) (?P<
 SUMMARY = re.compile(r"^(\d+) files checked, (?:(\d+) functions need refactoring\.|.*Refactoring not necessary.*)$")
 
 
-def build_tree(seq_py, seq_js):
-    """returns (files dict, expected per-file list of (name, length, header line))"""
+def build_tree(seq_py, seq_js, bare=None):
+    """returns (files dict, expected per-file list of (name, length, header line)).
+    bare = None | 'nl' | 'nonl': each file consists of exactly its first function and nothing else (no preamble, no
+    blank lines), with or without a final newline - the shape a file-size shortcut would misjudge"""
     files, truth = {}, {}
+    if bare:
+        for fname, seq, gen in (("a.py", seq_py, harness.py_function), ("b.js", seq_js, harness.js_function)):
+            if seq:
+                text = gen(f"{fname[0]}0", seq[0])
+                files[fname] = text if bare == "nl" else text.rstrip("\n")
+                truth[fname] = [(f"{fname[0]}0", seq[0], 1)]
+            else:
+                files[fname] = "x = 1\n" if fname.endswith(".py") else "var x = 1;\n"
+                truth[fname] = []
+        return files, truth
     for fname, seq, gen in (("a.py", seq_py, harness.py_function), ("b.js", seq_js, harness.js_function)):
         text = "x = 1\n" if fname.endswith(".py") else "var x = 1;\n"
         line = 2
@@ -138,12 +150,12 @@ def parse_check_output(text):
     return rows, summary, junk
 
 
-def eval_tree(seq_py, seq_js):
+def eval_tree(seq_py, seq_js, bare=None):
     from codelimit.commands.check import check_command
     from codelimit.common.Scanner import scan_path
 
     out = []
-    files, truth = build_tree(seq_py, seq_js)
+    files, truth = build_tree(seq_py, seq_js, bare)
     all_lengths = [L for t in truth.values() for _, L, _ in t]
     want_exit = 1 if any(L > 60 for L in all_lengths) else 0
     want_rows = {}
@@ -206,8 +218,62 @@ def eval_tree(seq_py, seq_js):
     return (want_exit, n_listed), out
 
 
+def eval_nested(outer_own, inner_len, lang):
+    """a long function nested in a long function: both are findings (check listing, report findings in both formats)"""
+    from codelimit.commands.check import check_command
+    from codelimit.common.report import format_markdown, format_text
+    from codelimit.common.report.Report import Report
+    from codelimit.common.Scanner import scan_path
+    from mc.gen import canon, programs
+
+    out = []
+    pre = outer_own // 2
+    body = [programs.S("simple")] * max(0, pre - 1) + [programs.nested(lang, "inner_fn", [programs.S("simple")] * (inner_len - (2 if lang != "Python" else 1)))] + \
+           [programs.S("simple")] * max(0, outer_own - pre - (1 if lang != "Python" else 0))
+    spec = {"lang": lang, "items": [programs.func("outer_fn", body), programs.func("flat_fn", [programs.S("simple")] * 3)]}
+    text, funcs = canon.render(spec)
+    fname = "n." + canon.EXT[lang]
+    with harness.temp_tree({fname: text}) as root:
+        harness.reset_globals()
+        cb = scan_path(root)
+        cb.aggregate()
+        ms = {m.unit_name: m.value for e in cb.files.values() for m in e.measurements()}
+        want = sorted([(n, v) for n, v in ms.items() if v > 30], key=lambda t: -t[1])
+        rep = Report(cb)
+        sig = {"language": lang}
+        for fmt, txt in (("text", harness.render(format_text.print_findings, rep, True, console_pos=0)),
+                         ("markdown", harness.render(format_markdown.print_findings, rep, True, console_pos=1))):
+            listed = [(n, v) for n, v in ms.items() if re.search(rf"\b{v}\b.*\b{n}\b|\b{n}\b.*\b{v}\b", txt)]
+            if sorted(listed) != sorted(want):
+                out.append(("findings-miss-nested-function", dict(sig, format=fmt), f"measured {ms}; findings list {listed}, expected {want}\n{txt[:400]}"))
+        with harness.cwd(root):
+            code, text_out, exc = harness.run_cli_function(check_command, [Path(fname)], False)
+        rows, summary, _ = parse_check_output(text_out if exc is None else "")
+        got = [(r[5], r[3]) for r in rows]
+        if exc is not None or got != want or code != (1 if any(v > 60 for _, v in want) else 0):
+            out.append(("check-listing-wrong-for-nested", sig, f"measured {ms}; check lists {got} exit {code} {exc!r}"))
+    return (len(want), ms.get("outer_fn"), ms.get("inner_fn")), out
+
+
 def _block(block, agg):
     kind, payload = block
+    if kind == "nested":
+        for outer_own, inner_len, lang in payload:
+            case = {"part": "c", "outer_own": outer_own, "inner": inner_len, "lang": lang}
+            oc, viol = eval_nested(outer_own, inner_len, lang)
+            agg.case(case, oc[0] > 0, oc, sample=oc[0] == 2)
+            for k, sig, d in viol:
+                agg.violation(k, sig, case, d)
+        return
+    if kind == "bare":
+        for seq_py, seq_js, bare in payload:
+            case = {"part": "b", "py": list(seq_py), "js": list(seq_js), "bare": bare}
+            oc, viol = eval_tree(seq_py, seq_js, bare)
+            agg.case(case, oc[1] > 0, oc, sample=False)
+            agg.transitions += 5
+            for k, sig, d in viol:
+                agg.violation(k, dict(sig, bare=bare), case, d)
+        return
     if kind == "len":
         for L in payload:
             cat, viol = eval_length(L)
@@ -227,6 +293,11 @@ def _block(block, agg):
 def replay(case):
     if case["part"] == "a":
         _, viol = eval_length(case["L"])
+    elif case["part"] == "c":
+        _, viol = eval_nested(case["outer_own"], case["inner"], case["lang"])
+    elif case.get("bare"):
+        _, viol = eval_tree(case["py"], case["js"], case["bare"])
+        viol = [(k, dict(sg, bare=case["bare"]), d) for k, sg, d in viol]
     else:
         _, viol = eval_tree(case["py"], case["js"])
     return [{"kind": k, "sig": s, "detail": d} for k, s, d in viol]
@@ -248,4 +319,11 @@ def run(ctx: core.Ctx):
                     trees.append((a, b))
     step = max(1, len(trees) // (ctx.workers * 3) + 1)
     blocks += [("tree", trees[i:i + step]) for i in range(0, len(trees), step)]
+    bare_lengths = [2, 15, 16, 29, 30, 31, 32, 59, 60, 61, 62]
+    bare = [((L,), (M,), b) for L in bare_lengths for M in bare_lengths for b in ("nl", "nonl") if L == M or (L, M) in ((31, 2), (2, 31), (61, 31))]
+    blocks += [("bare", bare[i:i + 6]) for i in range(0, len(bare), 6)]
+    nested = [(o, i, lang) for o in (5, 16, 31, 61) for i in (5, 16, 31, 61) for lang in ("Python", "JavaScript")]
+    blocks += [("nested", nested[i:i + 4]) for i in range(0, len(nested), 4)]
+    ctx.bounds["bare_single_function_files"] = {"lengths": bare_lengths, "final_newline": ["yes", "no"]}
+    ctx.bounds["nested"] = "outer own length x inner length in {5,16,31,61}^2, Python and JavaScript"
     ctx.run_blocks(_block, blocks)
